@@ -5,12 +5,16 @@ import (
 	"encoding/json"
 	"fmt"
 	"net"
+	"os"
+	"sort"
 	"strings"
 	"testing"
+	"testing/synctest"
 	"time"
 
 	"github.com/mgtv-tech/redis-GunYu/verifshim/mc"
 	"github.com/mgtv-tech/redis-GunYu/verifshim/redisd"
+	"github.com/mgtv-tech/redis-GunYu/verifshim/ref"
 	"github.com/mgtv-tech/redis-GunYu/verifshim/vnet"
 	"github.com/mgtv-tech/redis-GunYu/verifshim/vtime"
 )
@@ -28,7 +32,112 @@ type c13Write struct {
 type c13Scenario struct {
 	Writes     []c13Write `json:"writes"`
 	Cfg        biCfg      `json:"cfg"`
-	WrapSingle bool       `json:"wrap_single"` // pre-7 propagation (every transaction wrapped, SELECT before MULTI)
+	WrapSingle bool       `json:"wrap_single"`    // pre-7 propagation (every transaction wrapped, SELECT before MULTI)
+	Snap       *c13Snap   `json:"snap,omitempty"` // nil: both links start from an empty snapshot (incremental phase only)
+}
+
+// c13Snap is the snapshot part of a scenario: what the sites hold when both links start.
+//
+//	a2     site A holds three keys (two strings, one small hash), site B holds nothing
+//	a2b1   as a2, and site B holds a string under the SAME name as one of A's strings
+//	a2race as a2, and a client of site B creates that same-named key (the LAST key of the
+//	       snapshot) while link A->B is replaying the key: after the link's EXISTS probe,
+//	       before its MULTI..EXEC unit (needs KeyExists=ignore and the RESTORE path: the
+//	       RESTORE answers BUSYKEY, the marker is the unit's only effective command; the
+//	       start sequence stops with that error and is run once more, see c13RaceAbortIsViolation)
+//	a2racemid as a2race with the raced key in the middle of the snapshot
+type c13Snap struct {
+	Content   string `json:"content"`
+	KeyExists string `json:"key_exists"` // replace | ignore
+	Restore   bool   `json:"restore"`    // MaxProtoBulkLen = shipped default (RESTORE path) / 0 (expanded commands)
+}
+
+// c13RaceAbortIsViolation: how the check judges the one way the tool reacts to the a2race
+// history today - the start sequence of link A->B returns "exec[1]: BUSYKEY ..." (the txn
+// batcher of the real client reports the failed RESTORE inside EXEC as an error before
+// validateBisyncRdbExecReplies can tolerate it). false: the harness restarts the link once, as
+// the tool's supervisor does, and judges echo / swallow / exactly-once / quiescence on the
+// whole history (C13's statement speaks about those, not about a link giving up);
+// true: the abort itself is reported as C13:snapshot-abort-busykey:<mode>.
+const c13RaceAbortIsViolation = false
+
+const (
+	c13KeyS   = "snap:s"
+	c13KeyDup = "snap:dup"
+	c13KeyH   = "snap:h"
+	c13RaceV  = "B-race"
+)
+
+type c13SnapKey struct {
+	Key string
+	Val *ref.RValue
+	Enc ref.RDBEnc
+}
+
+func c13Str(k, v string) c13SnapKey {
+	return c13SnapKey{Key: k, Val: &ref.RValue{Type: 's', Str: []byte(v)}, Enc: ref.RDBEnc{Kind: "raw"}}
+}
+
+// c13SnapKeys returns what site A and site B hold at snapshot time.
+func c13SnapKeys(sn *c13Snap) (a, b []c13SnapKey) {
+	a = []c13SnapKey{
+		c13Str(c13KeyS, "A-s"),
+		{Key: c13KeyH, Val: &ref.RValue{Type: 'h', Hash: []ref.HField{{Field: []byte("f1"), Value: []byte("A-1")}, {Field: []byte("f2"), Value: []byte("A-2")}}}, Enc: ref.RDBEnc{Kind: "listpack"}},
+		c13Str(c13KeyDup, "A-dup"),
+	}
+	if sn.Content == "a2racemid" {
+		// the raced key is not the last one: another unit of the link follows the bare marker
+		a[1], a[2] = a[2], a[1]
+	}
+	if sn.Content == "a2b1" {
+		b = []c13SnapKey{c13Str(c13KeyDup, "B-dup")}
+	}
+	return
+}
+
+func c13ToValue(v *ref.RValue) *redisd.Value {
+	out := &redisd.Value{T: v.Type}
+	switch v.Type {
+	case 's':
+		out.Str = append([]byte{}, v.Str...)
+	case 'h':
+		out.Hash = map[string][]byte{}
+		for _, f := range v.Hash {
+			out.Hash[string(f.Field)] = append([]byte{}, f.Value...)
+			out.HOrder = append(out.HOrder, string(f.Field))
+		}
+	default:
+		panic("c13ToValue: unsupported type")
+	}
+	return out
+}
+
+// c13Canon renders type and content of a value of the double (strings and hashes).
+func c13Canon(v *redisd.Value) string {
+	if v == nil {
+		return "<absent>"
+	}
+	switch v.T {
+	case 's':
+		return fmt.Sprintf("string %q", v.Str)
+	case 'h':
+		var fs []string
+		for k, x := range v.Hash {
+			fs = append(fs, fmt.Sprintf("%q=%q", k, x))
+		}
+		sort.Strings(fs)
+		return "hash " + strings.Join(fs, " ")
+	}
+	return "type " + redisd.TypeName(v.T)
+}
+
+// c13GenRDB writes the snapshot of a site (RDB version 11 with AUX fields, as Redis 7.2 does).
+func c13GenRDB(keys []c13SnapKey) (*ref.RDBGen, error) {
+	var ks []ref.RDBKey
+	for _, k := range keys {
+		ks = append(ks, ref.RDBKey{DB: 0, Key: []byte(k.Key), Val: k.Val, Enc: k.Enc, Idle: -1, Freq: -1})
+	}
+	return ref.GenRDB(ref.RDBFileOpt{Version: 11, Aux: true}, ks)
 }
 
 const markerLike = `{"version":"1","run_id":"x","syncer_id":"y","unit_seq":1,"start_offset":1,"end_offset":2,"slot":0,"digest":"00"}`
@@ -71,12 +180,12 @@ func c13Commands(sym string, i int) [][]string {
 }
 
 type biSite struct {
-	name   string
-	addr   string
-	runID  string
-	srv    *redisd.Server
-	cli    net.Conn
-	cliID  int
+	name       string
+	addr       string
+	runID      string
+	srv        *redisd.Server
+	cli        net.Conn
+	cliID      int
 	clientReqs map[int]bool // request seqs issued by the harness client
 }
 
@@ -100,6 +209,10 @@ type biLinkT struct {
 	released int
 	s0       int64
 	steps    int
+	// snapshot phase of this link: request seqs (snapLo, snapHi] of the target's log
+	snapLo, snapHi int
+	snapKeys       []c13SnapKey // what the snapshot handed to this link holds
+	rdb            []byte
 }
 
 // step hands the link everything its source has propagated since the last step.
@@ -117,6 +230,65 @@ func (l *biLinkT) step() bool {
 	vtime.Fire("frontier")
 	l.run.wait()
 	return true
+}
+
+// c13BootRaced runs the start sequence of link A->B in a goroutine while the harness plays a
+// client of site B that creates c13KeyDup between the link's EXISTS probe of that key (answer
+// 0) and the MULTI of the unit that carries the key: the target parks exactly that MULTI, the
+// harness issues the client write and lets the target go on.
+func c13BootRaced(scn c13Scenario, l *biLinkT) (boot biBootResult, raced bool) {
+	srv := l.to.srv
+	armed := false
+	plan := srv.PlanRef()
+	plan.AfterReq = func(r *redisd.Req) {
+		if r.Name() == "exists" && len(r.Argv) == 2 && string(r.Argv[1]) == c13KeyDup && strings.HasPrefix(r.Reply, ":0") {
+			armed = true
+		}
+	}
+	plan.ParkFilter = func(argv [][]byte) bool {
+		return armed && len(argv) > 0 && strings.EqualFold(string(argv[0]), "multi")
+	}
+	plan.Park = true
+	done := make(chan biBootResult, 1)
+	go func() {
+		done <- biBoot(scn.Cfg, standaloneCfg(l.to.addr), l.from.name, l.from.runID, l.s0, true, srv)
+	}()
+	finished := false
+	for stalls := 0; !finished; {
+		synctest.Wait()
+		select {
+		case boot = <-done:
+			finished = true
+			continue
+		default:
+		}
+		if len(srv.ParkedConns()) > 0 {
+			if !raced {
+				raced = true
+				l.to.client("SET", c13KeyDup, c13RaceV)
+			}
+			armed = false
+			srv.Unpark()
+			plan.Park = true
+			continue
+		}
+		// nothing parked and the start sequence has not returned: only a timer can wake it up
+		stalls++
+		if stalls > 120 {
+			boot.err = fmt.Errorf("harness: start sequence did not return within 120 virtual seconds")
+			// leave the goroutine to the teardown of the bubble: unblock it
+			srv.KillConns()
+			time.Sleep(time.Minute)
+			synctest.Wait()
+			break
+		}
+		time.Sleep(time.Second)
+	}
+	plan.Park = false
+	plan.ParkFilter = nil
+	plan.AfterReq = nil
+	srv.Unpark()
+	return
 }
 
 func c13Exec(t *testing.T, scn c13Scenario, ch *mc.Chooser) mc.Result {
@@ -140,16 +312,107 @@ func c13Exec(t *testing.T, scn c13Scenario, ch *mc.Chooser) mc.Result {
 		links := []*biLinkT{{from: A, to: B}, {from: B, to: A}}
 		events := 0
 		var fail *mc.Result
-		for _, l := range links {
-			l.released = len(l.from.srv.ReplBytes())
-			l.s0 = 1000 + int64(l.released)
-			boot := biBoot(scn.Cfg, standaloneCfg(l.to.addr), l.from.name, l.from.runID, l.s0, true, l.to.srv)
+		// ---- snapshot part: initial content of the sites, the two snapshots, the positions of
+		// the two replication streams at snapshot time
+		pre := map[*biSite]map[string]*redisd.Value{A: {}, B: {}} // what a site holds at snapshot time
+		raced := false
+		raceAborts := 0
+		bootOrder := []int{0, 1}
+		if scn.Snap != nil {
+			ka, kb := c13SnapKeys(scn.Snap)
+			links[0].snapKeys, links[1].snapKeys = ka, kb
+			for _, l := range links {
+				for _, k := range l.snapKeys {
+					v := c13ToValue(k.Val)
+					l.from.srv.Put(0, k.Key, v)
+					pre[l.from][k.Key] = v
+				}
+				g, err := c13GenRDB(l.snapKeys)
+				if err != nil {
+					res = mc.Result{Verdict: "machinery", Clause: "generator: " + err.Error()}
+					for _, s := range sites {
+						s.cli.Close()
+					}
+					return
+				}
+				l.rdb = g.File
+				for _, gv := range g.Values {
+					for _, k := range l.snapKeys {
+						if k.Key == string(gv.Key) {
+							// a RESTORE payload is resolved by its body; both sites know every body so
+							// that an echoed RESTORE would be executed (and judged), not rejected
+							A.srv.RegisterRestorable(gv.Body, c13ToValue(k.Val))
+							B.srv.RegisterRestorable(gv.Body, c13ToValue(k.Val))
+						}
+					}
+				}
+			}
+			// both positions first: whatever a link writes during its snapshot phase lies
+			// behind the start position of the opposite link and is parsed by it
+			for _, l := range links {
+				l.released = len(l.from.srv.ReplBytes())
+				l.s0 = 1000 + int64(l.released)
+			}
+			if ch.Choose("bootorder", 2) == 1 {
+				bootOrder = []int{1, 0}
+			}
+		}
+		for _, li := range bootOrder {
+			l := links[li]
+			var boot biBootResult
+			if scn.Snap == nil {
+				l.released = len(l.from.srv.ReplBytes())
+				l.s0 = 1000 + int64(l.released)
+				boot = biBoot(scn.Cfg, standaloneCfg(l.to.addr), l.from.name, l.from.runID, l.s0, true, l.to.srv)
+			} else {
+				sn := *scn.Snap
+				biBootRDB = l.rdb
+				biBootCfgHook = func(c *RedisOutputConfig) {
+					c.KeyExists = sn.KeyExists
+					if sn.Restore {
+						c.MaxProtoBulkLen = 512 * 1024 * 1024 // config.go default (proto-max-bulk-len of Redis)
+					}
+				}
+				l.snapLo = l.to.srv.NumReqs()
+				if strings.HasPrefix(sn.Content, "a2race") && li == 0 {
+					boot, raced = c13BootRaced(scn, l)
+					if boot.err != nil && raced && strings.Contains(boot.err.Error(), "BUSYKEY") && !c13RaceAbortIsViolation {
+						// the real client turns the BUSYKEY inside the EXEC reply into an error and the
+						// whole snapshot replay stops (the marker of that unit was executed all the same).
+						// The tool's supervisor starts the link again: one new start sequence, same
+						// snapshot, which must succeed.
+						raceAborts++
+						biBootRDB = l.rdb
+						biBootCfgHook = func(c *RedisOutputConfig) {
+							c.KeyExists = sn.KeyExists
+							c.MaxProtoBulkLen = 512 * 1024 * 1024
+						}
+						boot = biBoot(scn.Cfg, standaloneCfg(l.to.addr), l.from.name, l.from.runID, l.s0, true, l.to.srv)
+						events++
+					} else if boot.err != nil && raced && strings.Contains(boot.err.Error(), "BUSYKEY") {
+						v := mc.Violation("the snapshot phase of a link stops with an error because a client of the target created a snapshot key between the link's EXISTS probe and its unit (KeyExists=ignore)",
+							"C13:snapshot-abort-busykey:"+scn.Cfg.Mode, map[string]interface{}{"error": boot.err.Error(), "link": l.from.name + "->" + l.to.name, "target_log": maskedLog(l.to.srv.ExecLog())})
+						fail = &v
+						break
+					}
+				} else {
+					boot = biBoot(scn.Cfg, standaloneCfg(l.to.addr), l.from.name, l.from.runID, l.s0, true, l.to.srv)
+				}
+				l.snapHi = l.to.srv.NumReqs()
+				events++
+			}
 			if boot.err != nil {
-				v := mc.Violation("start-up failed on a healthy target", "C13:boot-error:"+scn.Cfg.Mode, map[string]interface{}{"error": boot.err.Error()})
+				v := mc.Violation("start-up failed on a healthy target", "C13:boot-error:"+scn.Cfg.Mode, map[string]interface{}{"error": boot.err.Error(),
+					"link": l.from.name + "->" + l.to.name, "target_log": maskedLog(l.to.srv.ExecLog())})
 				fail = &v
 				break
 			}
 			l.run = biStart(boot.ro, l.from.runID, boot.offset)
+		}
+		if scn.Snap != nil && strings.HasPrefix(scn.Snap.Content, "a2race") && !raced && fail == nil {
+			// the link never probed the key before its unit: the client write simply follows the snapshot phase
+			B.client("SET", c13KeyDup, c13RaceV)
+			events++
 		}
 		teardown := func() {
 			for _, l := range links {
@@ -214,6 +477,10 @@ func c13Exec(t *testing.T, scn c13Scenario, ch *mc.Chooser) mc.Result {
 		logs := map[string][]*redisd.Req{"A": A.srv.ExecLog(), "B": B.srv.ExecLog()}
 		repl := map[string][]redisd.ReplCmd{"A": A.srv.ReplCmds(), "B": B.srv.ReplCmds()}
 		teardown()
+		if os.Getenv("VERIF_C13_DUMP") != "" {
+			fmt.Fprintf(os.Stderr, "---- A stream:\n%s\n---- B stream:\n%s\n---- A log:\n%s\n---- B log:\n%s\n", strings.Join(replStrings(repl["A"]), "\n"), strings.Join(replStrings(repl["B"]), "\n"),
+				strings.Join(maskedLog(logs["A"]), "\n"), strings.Join(maskedLog(logs["B"]), "\n"))
+		}
 		describe := func() map[string]interface{} {
 			return map[string]interface{}{"siteA_log": maskedLog(logs["A"]), "siteB_log": maskedLog(logs["B"])}
 		}
@@ -251,6 +518,11 @@ func c13Exec(t *testing.T, scn c13Scenario, ch *mc.Chooser) mc.Result {
 			var got []*redisd.Req
 			for _, r := range logs[toKey] {
 				if l.to.clientReqs[r.Seq] {
+					continue
+				}
+				if r.Seq > l.snapLo && r.Seq <= l.snapHi {
+					// written by this link during its own snapshot phase: not a peer's client write
+					// (the OPPOSITE link must not send it back: its got list does not exclude it)
 					continue
 				}
 				n := r.Name()
@@ -296,7 +568,51 @@ func c13Exec(t *testing.T, scn c13Scenario, ch *mc.Chooser) mc.Result {
 			// a client transaction must arrive as one transaction
 			_ = li
 		}
-		obs := mc.Hash(append(maskedLog(logs["A"]), maskedLog(logs["B"])...)...)
+		// ---- oracle, snapshot part: the target of a link holds the keys of the link's snapshot.
+		// KeyExists=replace: with the snapshot's content; KeyExists=ignore: a key the target
+		// already held when the link looked keeps the target's content.
+		snapApplied := false
+		if scn.Snap != nil {
+			for li, l := range links {
+				dir := "A->B"
+				if li == 1 {
+					dir = "B->A"
+				}
+				for _, r := range logs[map[int]string{0: "B", 1: "A"}[li]] {
+					if r.Seq > l.snapLo && r.Seq <= l.snapHi && !l.to.clientReqs[r.Seq] && len(r.Argv) > 1 && strings.HasPrefix(string(r.Argv[1]), "snap:") {
+						switch r.Name() {
+						case "restore", "set", "hset", "hmset", "del", "rpush":
+							snapApplied = true
+						}
+					}
+				}
+				for _, k := range l.snapKeys {
+					want := c13ToValue(k.Val)
+					if scn.Snap.KeyExists == "ignore" {
+						if v, ok := pre[l.to][k.Key]; ok {
+							want = v
+						} else if raced && l.to == B && k.Key == c13KeyDup {
+							want = &redisd.Value{T: 's', Str: []byte(c13RaceV)}
+						}
+					}
+					got := l.to.srv.Get(0, k.Key)
+					if got == nil {
+						res = mc.Violation("a key of the snapshot is missing at the target after the snapshot phase", "C13:snapshot-missing:"+scn.Cfg.Mode,
+							map[string]interface{}{"link": dir, "key": k.Key, "expected": c13Canon(want), "history": describe()})
+						return
+					}
+					if c13Canon(got) != c13Canon(want) {
+						res = mc.Violation("a key of the snapshot has other content at the target than the key-exists policy prescribes", "C13:snapshot-content:"+scn.Cfg.Mode+":"+scn.Snap.KeyExists,
+							map[string]interface{}{"link": dir, "key": k.Key, "expected": c13Canon(want), "found": c13Canon(got), "history": describe()})
+						return
+					}
+				}
+			}
+		}
+		obs := mc.Hash(append(append(maskedLog(logs["A"]), maskedLog(logs["B"])...), fmt.Sprintf("race-aborts=%d", raceAborts))...)
+		if raceAborts > 0 {
+			c13RaceAbortCount++
+		}
 		nontrivial := false
 		for _, k := range []string{"A", "B"} {
 			for _, c := range repl[k] {
@@ -304,6 +620,9 @@ func c13Exec(t *testing.T, scn c13Scenario, ch *mc.Chooser) mc.Result {
 					nontrivial = true
 				}
 			}
+		}
+		if snapApplied {
+			nontrivial = true
 		}
 		res = mc.OK(obs, nontrivial, events)
 	})
@@ -313,7 +632,15 @@ func c13Exec(t *testing.T, scn c13Scenario, ch *mc.Chooser) mc.Result {
 	return res
 }
 
+// c13RaceAbortCount counts executions in which the raced start sequence stopped with BUSYKEY
+// and was restarted (reported as counter snapshot_abort_busykey_restarted).
+var c13RaceAbortCount int
+
 func c13SymOf(scn c13Scenario, c redisd.ReplCmd, out *string) string {
+	if len(c.Argv) > 1 && string(c.Argv[1]) == c13KeyDup {
+		*out = "snaprace"
+		return *out
+	}
 	for i, w := range scn.Writes {
 		for _, cmd := range c13Commands(w.Sym, i) {
 			if len(cmd) > 1 && len(c.Argv) > 1 && cmd[1] == string(c.Argv[1]) {
@@ -421,6 +748,56 @@ func runC13(t *testing.T, rep *mc.Reporter) {
 				mc.RunScenario(rep, scn, bound, budget, func(ch *mc.Chooser) mc.Result { return c13Exec(t, scn, ch) })
 			}
 		}
+	}
+	// ---- snapshot family: the sites hold keys when both links start; each link replays the
+	// snapshot of its source through the real SendRdb (one marker transaction per key) while
+	// the opposite link's start position lies before those writes.
+	snaps := []c13Snap{
+		{"a2", "replace", true}, {"a2", "replace", false},
+		{"a2b1", "ignore", true},
+		{"a2race", "ignore", true},
+	}
+	firsts := []string{"txn", "txn1", "txnmarkerfirst", "set"} // first write at the site that received A's snapshot
+	seconds := []string{"set", "txn"}
+	if tier == "thorough" {
+		snaps = append(snaps, c13Snap{"a2", "ignore", true}, c13Snap{"a2b1", "replace", true}, c13Snap{"a2b1", "replace", false}, c13Snap{"a2b1", "ignore", false}, c13Snap{"a2racemid", "ignore", true})
+		seconds = reduced
+	}
+	var swrites [][]c13Write
+	swrites = append(swrites, nil) // the snapshot phase alone
+	for _, f := range firsts {
+		swrites = append(swrites, []c13Write{{1, f}})
+		for _, s2 := range seconds {
+			for site := 0; site < 2; site++ {
+				swrites = append(swrites, []c13Write{{1, f}, {site, s2}})
+			}
+		}
+		// a write at A first: B's first write after the snapshot is still f
+		pres := []string{"set"}
+		if tier == "thorough" {
+			pres = reduced
+		}
+		for _, p0 := range pres {
+			swrites = append(swrites, []c13Write{{0, p0}, {1, f}})
+		}
+	}
+	for _, ws := range swrites {
+		for si := range snaps {
+			for _, m := range modes {
+				for _, wrap := range []bool{false, true} {
+					idx++
+					if idx%nshards != shard || budget.Expired() {
+						continue
+					}
+					sn := snaps[si]
+					scn := c13Scenario{Writes: ws, Cfg: m, WrapSingle: wrap, Snap: &sn}
+					mc.RunScenario(rep, scn, bound, budget, func(ch *mc.Chooser) mc.Result { return c13Exec(t, scn, ch) })
+				}
+			}
+		}
+	}
+	if c13RaceAbortCount > 0 {
+		rep.Count("snapshot_abort_busykey_restarted", int64(c13RaceAbortCount))
 	}
 	if budget.Expired() {
 		rep.Capped("deadline reached before all scenarios were explored")
